@@ -71,8 +71,12 @@ def generate(tier, seed, work, stats):
         j = (i * 31 + 7 + seed) % n
         cases.append(dict(kind="fst", hist=h, hist2=singles[j], spool=pools[i % 4], spool2=pools[(i // 4) % 4] if i % 3 else pools[i % 4],
                           same=(i % 5 == 0), L=3, family="FSTGen"))
-        if i % 6 == 1:      # output symbols handed over as a tuple
+        if i % 6 == 1:      # output symbols handed over as a tuple / as a one-shot iterator
             cases.append(dict(cases[-1], outs="tuple", family="FSTGen-tuple-outputs"))
+        if i % 6 == 4:
+            cases.append(dict(cases[-1], outs="iter", family="FSTGen-iterator-outputs"))
+        if i % 5 == 2 and len(h) >= 3:
+            cases.append(dict(cases[-1], staged=True, family="FSTGen-queried-while-built"))
     # to_fst on automata of the FA generator
     for kind in ("enfa", "dfa"):
         states = core.tlc_dump("FAGen", c01.gen_cfg(kind, 2, 3, 0, invariants=False, maxs=2, maxf=2), work, stats=stats,
@@ -102,7 +106,23 @@ def replay(case):
         else:
             ev["exc"] = r[1] if r[0] == "exc" else "Timeout"
         return [ev]
-    t, spec = fsth.build(case["hist"], case["spool"], outs=tuple if case.get("outs") == "tuple" else list)
+    outs_type = {"tuple": tuple, "iter": iter}.get(case.get("outs"), list)
+    if case.get("staged"):
+        # the transducer is queried while it is being built: first without its last two calls, then completed
+        cut = max(1, len(case["hist"]) - 2)
+        t, _ = fsth.build(case["hist"][:cut], case["spool"], outs=outs_type)
+        fsth.translate_all(t, words)
+        _, spec = fsth.build(case["hist"], case["spool"])
+        sm = fsth.STATE_POOLS[case["spool"]]
+        for c in case["hist"][cut:]:
+            if c[0] == "add_transition":
+                t.add_transition(sm[c[1]], "epsilon" if c[2] == "eps" else c[2], sm[c[3]], outs_type(c[4]))
+            elif c[0] == "add_start_state":
+                t.add_start_state(sm[c[1]])
+            else:
+                t.add_final_state(sm[c[1]])
+    else:
+        t, spec = fsth.build(case["hist"], case["spool"], outs=outs_type)
     T = fsth.project(t)
     evs.append({"op": "build", "T": T, "spec": spec})
     outs, status = fsth.translate_all(t, words)
